@@ -226,6 +226,12 @@ func (sw *SessionWindow) Add(data any) {
 		}
 		sw.sessionMap[key] = s
 	} else {
+		// An out-of-order (but accepted) event earlier than the session's first
+		// event moves the session start back: window_start is the earliest event.
+		if s.slot.Start != nil && timestamp.Before(*s.slot.Start) {
+			newStart := timestamp
+			s.slot.Start = &newStart
+		}
 		// Update session end time
 		if timestamp.After(s.lastActive) {
 			s.lastActive = timestamp
